@@ -353,3 +353,80 @@ Proof.
     destruct (tk (arr_body (vc :: vs') ++ 93 :: acc)) as [t r2]. cbn [fst] in Htk.
     destruct t; try reflexivity. exfalso; apply Htk; reflexivity.
 Qed.
+
+(* ------------------------------------------------------------------------- *)
+(* Part C: the JSON-level specifications of WireProofs.v *)
+
+Lemma items_of_kvs d : forall kvs, (forall kv, In kv kvs -> plain_key (fst kv) = true /\ tight_at d (snd kv) = true) ->
+  exists items, map item_kv items = kvs /\ Forall (item_ok d) items.
+Proof.
+  induction kvs as [|[k v] kvs IH]; intros H.
+  - exists []. split; [reflexivity | constructor].
+  - destruct (H (k, v) (or_introl eq_refl)) as [Hk Hv]. cbn [fst snd] in Hk, Hv. destruct (tight_PV _ _ Hv) as [c Hc].
+    destruct IH as (items & E & F); [intros kv Hin; apply H; right; exact Hin|].
+    exists ((k, v, c) :: items). split; [cbn [map]; rewrite E; reflexivity|].
+    constructor; [split; assumption | exact F].
+Qed.
+
+Lemma members_of_items d items : Forall (item_ok d) items ->
+  map (fun m => (unquote (snd (fst (fst m))), ctext (snd (fst (snd m))) [])) (map item_mem items) = map item_kv items.
+Proof.
+  induction 1 as [|[[k v] c] items [Hk Hv] _ IH]; [reflexivity|]. cbn [map]. rewrite IH.
+  cbn [fst snd] in Hk, Hv. change (item_kv (k, v, c)) with (k, v). change (item_mem (k, v, c)) with (([] : bytes, k, [] : bytes), ([] : bytes, c, [] : bytes)).
+  cbn [fst snd]. rewrite (plain_key_unquote _ Hk), <- (PV_text _ _ _ _ Hv). reflexivity.
+Qed.
+
+Lemma members_spec : spec_members.
+Proof.
+  intros kvs Hne H. destruct (items_of_kvs 1 kvs H) as (items & <- & HF).
+  assert (Hne' : items <> []) by (intros ->; apply Hne; reflexivity).
+  pose proof (obj_PV 0 items [] Hne' depth_le_1 HF) as Hpv. rewrite app_nil_r in Hpv.
+  unfold raw_members. rewrite (parse_doc_PV _ _ Hpv). rewrite (members_of_items _ _ HF). reflexivity.
+Qed.
+
+Lemma obj_tight_spec : spec_obj_tight.
+Proof.
+  intros d kvs Hne Hd H. destruct (items_of_kvs (N.succ d) kvs H) as (items & <- & HF).
+  assert (Hne' : items <> []) by (intros ->; apply Hne; reflexivity).
+  pose proof (obj_PV d items [] Hne' Hd HF) as Hpv. rewrite app_nil_r in Hpv. exact (PV_tight _ _ _ Hpv).
+Qed.
+
+Lemma vcs_of_values d : forall vs, (forall v, In v vs -> tight_at d v = true) ->
+  exists vcs, map fst vcs = vs /\ Forall (fun vc : bytes * cst => PV d (fst vc) (snd vc) []) vcs.
+Proof.
+  induction vs as [|v vs IH]; intros H.
+  - exists []. split; [reflexivity | constructor].
+  - destruct (tight_PV _ _ (H v (or_introl eq_refl))) as [c Hc].
+    destruct IH as (vcs & E & F); [intros v' Hin; apply H; right; exact Hin|].
+    exists ((v, c) :: vcs). split; [cbn [map fst]; rewrite E; reflexivity|]. constructor; [exact Hc | exact F].
+Qed.
+
+Lemma elems_of_vcs d vcs : Forall (fun vc : bytes * cst => PV d (fst vc) (snd vc) []) vcs ->
+  map (fun e : bytes * cst * bytes => ctext (snd (fst e)) []) (map velem vcs) = map fst vcs.
+Proof.
+  induction 1 as [|[v c] vcs Hv _ IH]; [reflexivity|]. cbn [map]. rewrite IH. unfold velem at 1. cbn [fst snd] in *.
+  rewrite <- (PV_text _ _ _ _ Hv). reflexivity.
+Qed.
+
+(* a general form: an array of values valid at depth d+1 is valid at depth d *)
+Lemma arr_tight d vs : N.succ d <= max_depth -> (forall v, In v vs -> tight_at (N.succ d) v = true) -> tight_at d (arr_text vs) = true.
+Proof.
+  intros Hd H. destruct (vcs_of_values (N.succ d) vs H) as (vcs & <- & HF).
+  pose proof (arr_PV d vcs [] Hd HF) as Hpv. rewrite app_nil_r in Hpv. exact (PV_tight _ _ _ Hpv).
+Qed.
+
+Lemma elements_spec : spec_elements.
+Proof.
+  intros vs H. destruct (vcs_of_values 1 vs H) as (vcs & <- & HF).
+  pose proof (arr_PV 0 vcs [] depth_le_1 HF) as Hpv. rewrite app_nil_r in Hpv.
+  unfold raw_elements. rewrite (parse_doc_PV _ _ Hpv). rewrite (elems_of_vcs _ _ HF). reflexivity.
+Qed.
+
+Lemma raw_value_spec : spec_raw_value.
+Proof. exact raw_value_tight. Qed.
+
+Lemma depth_mono_spec : spec_depth_mono.
+Proof. intros d v H. apply (tight_depth_mono (N.succ d)); [exact H | lia]. Qed.
+
+Lemma string_spec : spec_string.
+Proof. exact string_round_trip. Qed.
